@@ -3,6 +3,7 @@ package c01
 import (
 	"context"
 	"fmt"
+	amath "github.com/marekgalovic/anndb/math"
 	"os"
 	"testing"
 	"time"
@@ -22,7 +23,7 @@ import (
 // through the Dataset API on any node.
 func TestC01Dataset(t *testing.T) {
 	rec := shared
-	n := rec.N(2, 24)
+	n := rec.N(4, 32)
 	for c := 0; c < n; c++ {
 		if rec.Mine(c) {
 			datasetCase(rec, c)
@@ -101,14 +102,14 @@ func datasetCase(rec *mon.Recorder, c int) {
 			cctx, cancel := context.WithTimeout(ctx, 8*time.Second)
 			var err error
 			switch r := rng.Intn(10); {
-			case r < 5:
+			case r < 4:
 				v, m := cfg.Vec(rng), hx.GenMeta(rng)
 				err = via.Insert(cctx, id, v, m)
 				if err == nil {
 					ref[id] = &hx.Item{Vec: v, Meta: m}
 				}
 				ops = append(ops, fmt.Sprintf("insert %d -> %v", hx.IdNum(id), err))
-			case r < 7:
+			case r < 6:
 				v, m := cfg.Vec(rng), hx.GenMeta(rng)
 				err = via.Update(cctx, id, v, m)
 				if err == nil {
@@ -122,6 +123,61 @@ func datasetCase(rec *mon.Recorder, c int) {
 					ref[id] = &hx.Item{Vec: v, Meta: merged}
 				}
 				ops = append(ops, fmt.Sprintf("update %d -> %v", hx.IdNum(id), err))
+			case r < 8:
+				// the batch forms of the same writes (1-3 distinct ids)
+				kind := rng.Intn(3)
+				n := 1 + rng.Intn(3)
+				seen := map[uuid.UUID]bool{}
+				var items []*pb.BatchItem
+				type planned struct {
+					id uuid.UUID
+					v  amath.Vector
+					m  index.Metadata
+				}
+				var plan []planned
+				for len(items) < n {
+					bid := hx.Id(c*1000 + rng.Intn(30))
+					if seen[bid] {
+						continue
+					}
+					seen[bid] = true
+					v, m := cfg.Vec(rng), hx.GenMeta(rng)
+					items = append(items, &pb.BatchItem{Id: bid.Bytes(), Value: v, Metadata: m})
+					plan = append(plan, planned{bid, v, m})
+				}
+				var errs map[uuid.UUID]error
+				name := []string{"batch-insert", "batch-update", "batch-remove"}[kind]
+				switch kind {
+				case 0:
+					errs, err = via.BatchInsert(cctx, items)
+				case 1:
+					errs, err = via.BatchUpdate(cctx, items)
+				default:
+					errs, err = via.BatchRemove(cctx, items)
+				}
+				if err == nil {
+					for _, pl := range plan {
+						if errs[pl.id] != nil {
+							continue
+						}
+						switch kind {
+						case 0:
+							ref[pl.id] = &hx.Item{Vec: pl.v, Meta: pl.m}
+						case 1:
+							merged := index.Metadata{}
+							for k, x := range ref[pl.id].Meta {
+								merged[k] = x
+							}
+							for k, x := range pl.m {
+								merged[k] = x
+							}
+							ref[pl.id] = &hx.Item{Vec: pl.v, Meta: merged}
+						default:
+							delete(ref, pl.id)
+						}
+					}
+				}
+				ops = append(ops, fmt.Sprintf("%s %d items -> %v %v", name, n, err, errs))
 			default:
 				err = via.Remove(cctx, id)
 				if err == nil {
@@ -137,8 +193,25 @@ func datasetCase(rec *mon.Recorder, c int) {
 			}
 		}
 		if !quiesce() {
-			rec.Inconclusive(desc + ": replicas did not reach the reference state")
-			return
+			// slow, or at rest in a state that is not what the acknowledged writes
+			// add up to? In the second case the searches below say what is wrong.
+			atRest := cl.WaitFor(5*time.Second, func() bool {
+				for _, n := range cl.Nodes {
+					for _, pid := range pids {
+						if g := n.PartitionRaft(dsId, pid); g != nil {
+							if st := g.VerifStatus(); st.Lead == 0 || st.Applied < st.Commit {
+								return false
+							}
+						}
+					}
+				}
+				return true
+			}) == nil
+			if !atRest {
+				rec.Inconclusive(desc + ": replicas did not reach the reference state")
+				return
+			}
+			rec.Count("rounds_judged_at_rest_without_reaching_the_reference", 1)
 		}
 		for s := 0; s < 25; s++ {
 			q := cfg.Vec(rng)
